@@ -456,10 +456,105 @@ func emitCase(c *hx.Ctx, id string, w *world, probe string) {
 		wins = append(wins, x)
 	}
 	// the deep parts of the acceptance tests that the header model does not read: supplied as observed
-	// (fat32: the two FAT copies compare equal; iso/squashfs/ext4: everything beyond the magic numbers)
+	// (iso/squashfs/ext4: everything beyond the magic numbers).  FAT32's deep part - the comparison of the
+	// two FAT copies - is computed by the model itself whenever both copies can be handed over ('m').
+	deep := acc
+	if fw, ok := fatWindows(c, w, s0); ok {
+		wins = append(wins, fw...)
+		deep = "m" + acc[1:]
+		c.Stat("fat32-deep-modelled")
+		if acc[0] == '1' {
+			c.Stat("fat32-deep-modelled-accept")
+		}
+	}
 	c.Case(id, "detect.probe", fmt.Sprintf("size=%d", size), fmt.Sprintf("avail=%d", avail), fmt.Sprintf("ss=%d", w.ss),
-		"win="+strings.Join(wins, ","), "deep="+acc)
+		"win="+strings.Join(wins, ","), "deep="+deep)
 	c.Impl(id, "acc="+acc, "probe="+probe)
+}
+
+// fatWindows: the non-zero parts of the two FAT copies as fat32.Read locates them from the boot sector
+// (nothing when the boot sector does not look like FAT32's or the FATs are too large for a case line).
+func fatWindows(c *hx.Ctx, w *world, s0 []byte) ([]string, bool) {
+	if s0[510] != 0x55 || s0[511] != 0xAA || (s0[66] != 0x28 && s0[66] != 0x29) {
+		return nil, false
+	}
+	bps := int64(s0[11]) | int64(s0[12])<<8
+	res := int64(s0[14]) | int64(s0[15])<<8
+	spf := int64(s0[36]) | int64(s0[37])<<8 | int64(s0[38])<<16 | int64(s0[39])<<24
+	fatSize := (spf * bps) & 0xffffffff
+	limit := int64(c.N(1<<20, 8<<20))
+	if bps < 512 || fatSize < 8 || fatSize > limit {
+		return nil, false
+	}
+	var out []string
+	const gran = 256
+	for _, lo := range []int64{res * bps, res*bps + fatSize} {
+		hi := lo + fatSize
+		if max := w.dev.Size() - w.start; hi > max {
+			hi = max
+		}
+		if lo >= hi {
+			continue
+		}
+		b := w.dev.Bytes(w.start+lo, int(hi-lo))
+		run := int64(-1)
+		for g := int64(0); g <= int64(len(b)); g += gran {
+			nz := false
+			if g < int64(len(b)) {
+				e := g + gran
+				if e > int64(len(b)) {
+					e = int64(len(b))
+				}
+				for _, x := range b[g:e] {
+					if x != 0 {
+						nz = true
+						break
+					}
+				}
+			}
+			if nz && run < 0 {
+				run = g
+			}
+			if !nz && run >= 0 {
+				e := g
+				if e > int64(len(b)) {
+					e = int64(len(b))
+				}
+				out = append(out, fmt.Sprintf("%d:%s", lo+run, hex.EncodeToString(b[run:e])))
+				run = -1
+			}
+		}
+	}
+	return out, true
+}
+
+// ext4BootCase: what the write log of an ext4 Create (and everything done to the volume afterwards) did to
+// bytes 0..1023 of the volume: clear=1 when the last write touching them is 1024 zero bytes at offset 0.
+func ext4BootCase(c *hx.Ctx, id string, w *world) {
+	last := -1
+	for i, ev := range w.dev.Log {
+		if ev.Sync || ev.Len == 0 {
+			continue
+		}
+		if ev.Off < w.start+1024 && ev.Off+int64(ev.Len) > w.start {
+			last = i
+		}
+	}
+	clear := 0
+	if last >= 0 {
+		ev := w.dev.Log[last]
+		if ev.Off == w.start && ev.Len == 1024 && ev.Data != nil {
+			clear = 1
+			for _, x := range ev.Data {
+				if x != 0 {
+					clear = 0
+				}
+			}
+		}
+	}
+	c.Case(id, "detect.ext4boot")
+	c.Impl(id, fmt.Sprintf("clear=%d", clear))
+	c.Stat("ext4-boot-area-log")
 }
 
 func runCase(c *hx.Ctx, id string, g cfg, r *hx.Rng) {
@@ -520,6 +615,9 @@ func runCase(c *hx.Ctx, id string, g cfg, r *hx.Rng) {
 		c.Stat("create-refused")
 		c.Note("%s refused: %s: %v", id, desc, err)
 		return
+	}
+	if g.kind == "ext4" && c.Want(id+"/ext4boot") {
+		ext4BootCase(c, id+"/ext4boot", w)
 	}
 	c.Stat("created." + g.kind)
 	c.Stat("class." + g.class)
@@ -899,6 +997,7 @@ func Run(c *hx.Ctx) {
 	}
 	c.StatN("configs-run", ran)
 	extras(c, c.Rng.Fork())
+	fat32Extras(c, c.Rng.Fork())
 	witnesses(c)
 }
 
